@@ -1291,7 +1291,7 @@ class BodyElementValueGenerator_Function_NormalizeSpace(BodyElementValueGenerato
         '''
         valueEm = self.fnArgElements[0].evaluateLevelForTag(thisTag)
 
-        if not issubclass(valueEm.__class__, (BodyElementValue_String, BodyElementValue_Null) ):
+        if valueEm.VALUE_TYPE not in (BODY_VALUE_TYPE_STRING, BODY_VALUE_TYPE_NULL):
             raise XPathRuntimeError('Got a value returned from within argument to normalize-text which was not string! It was: %s' %( valueEm.VALUE_TYPE, ))
 
         value = str(valueEm.getValue())
